@@ -332,6 +332,10 @@ func (c *xsyncMap) GetAndDelete(k string) (interface{}, bool) {
 	if ec != nil {
 		ec(k, i.v)
 	}
+	if i.expired() {
+		// removed, but an expired value is never returned
+		return nil, false
+	}
 	return i.v, true
 }
 
